@@ -6,13 +6,16 @@ set -u
 here="$(cd "$(dirname "$0")/.." && pwd)"
 . "$here/scripts/env.sh"
 seed="$1"; tier="$2"; shift 2
-cd /repo
-if [ -n "$(git status --porcelain)" ]; then echo "seedtest: /repo not clean" >&2; exit 2; fi
-restore() { git -C /repo checkout -- . ; rm -f /repo/zz_seed_demo_test.go /repo/context/zz_seed_demo_test.go; }
+export VERIF_DIR="$here"
+. "$here/scripts/env.sh"
+R="$VERIF_REPO"
+cd "$R"
+if [ -n "$(git status --porcelain)" ]; then echo "seedtest: $R not clean" >&2; exit 2; fi
+restore() { git -C "$R" checkout -- . ; rm -f "$R/zz_seed_demo_test.go" "$R/context/zz_seed_demo_test.go"; }
 trap restore EXIT
 demo=$(ls "$seed"/*_test.go 2>/dev/null | head -1)
-pkgdir=/repo
-if [ -n "$demo" ] && grep -q '^package context' "$demo"; then pkgdir=/repo/context; fi
+pkgdir="$R"
+if [ -n "$demo" ] && grep -q '^package context' "$demo"; then pkgdir="$R/context"; fi
 tname=$(grep -o 'func Test[A-Za-z0-9_]*' "$demo" | head -1 | sed 's/func //')
 run_demo() { cp "$demo" $pkgdir/zz_seed_demo_test.go; (cd $pkgdir && go test -vet=off -count=1 -run "^${tname}\$" . >/tmp/seed_demo.log 2>&1); rc=$?; rm -f $pkgdir/zz_seed_demo_test.go; return $rc; }
 if [ -n "$demo" ]; then
